@@ -173,6 +173,26 @@ def run_case(kind, params):
                 msgs.append(f"{pp['kind']}: get_template{shp} is not rfft2 of the fresh mask")
             if shared.get_crop_size() != impl.pattern_from(pp).get_crop_size():
                 msgs.append("crop size changed")
+            if params.get("scribble"):
+                # the caller uses the arrays it was handed as scratch space (normalises the mask in place, clears the spectrum):
+                # they are results, not the pattern's state
+                a -= 3.0
+                a *= 0.25
+                t[...] = 0
+        if params.get("scribble") and params.get("frame_shape"):
+            fshape = tuple(params["frame_shape"])
+            frame = impl.noise_frame(rng, fshape, "disks")
+            pk = np.asarray(params["peaks"], dtype=np.int64)
+            try:
+                for pipeline in ("fast", "full"):
+                    got = (impl.run_fast if pipeline == "fast" else impl.run_full)(frame, shared, pk)
+                    ref = (impl.run_fast if pipeline == "fast" else impl.run_full)(frame, impl.pattern_from(pp), pk)
+                    for nm, x, y in zip(("centers", "refineds", "heights", "elevations"), got, ref):
+                        if not np.array_equal(x, y, equal_nan=True):
+                            msgs.append(f"{pp['kind']}: {pipeline} pipeline, {nm} with a pattern whose earlier masks / templates were "
+                                        f"written to by the caller differ from a fresh pattern")
+            except Exception as e:      # noqa: BLE001
+                msgs.append(f"{pp['kind']}: raised {type(e).__name__}: {e}")
     elif kind == "retune":
         # a pattern object that has been used, then had its public parameters changed (rebound, or array parameters
         # updated in place), must behave like a fresh pattern constructed with the parameters it has now
@@ -305,6 +325,23 @@ def search(ctx, boost=1, focus=()):
                             [2 * (h0 // 2) + 1, 2 * (w0 // 2) + 1], [h0, w0 - 1 if w0 > 2 else w0 + 1]]
         ctx.oracle_case("requery", p, run_case("requery", p))
         ctx.count("requery")
+    # the caller writes into the masks / templates it was handed; user templates larger and smaller than the requested shapes
+    for k in range((40 if thorough else 12) * boost):
+        pat = impl.pattern_params(rng, kinds=("user", "user", "circular", "rgbs", "radial_gradient", "background_subtraction"), rmax=6.0)
+        if pat["kind"] == "user":
+            pat["user_shape"] = [int(rng.integers(8, 40)), int(rng.integers(8, 40))]
+            pat["radius"] = float(min(pat["radius"], min(pat["user_shape"]) / 2 - 1))
+        c = int(np.ceil(pat["search"]))
+        us = pat.get("user_shape", [20, 20])
+        shapes = [[int(rng.integers(2, us[0] + 1)), int(rng.integers(2, us[1] + 1))],     # cropped on both axes (or equal)
+                  [2 * c, 2 * c], [int(rng.integers(2, 60)), int(rng.integers(2, 60))], list(us), [2 * c, 2 * c]]
+        fshape = [int(rng.integers(2 * c + 2, 60)), int(rng.integers(2 * c + 2, 60))]
+        npk = int(rng.integers(1, 5))
+        p = {"seed": int(rng.integers(1 << 30)), "pattern": pat, "shapes": shapes + [shapes[0]], "scribble": True,
+             "frame_shape": fshape,
+             "peaks": np.stack([rng.integers(0, fshape[0], npk), rng.integers(0, fshape[1], npk)], axis=1).tolist()}
+        ctx.oracle_case("requery", p, run_case("requery", p), nontrivial=True)
+        ctx.count("requery_scribble_" + pat["kind"])
     # the last call of a history compared with the same call in a FRESH interpreter (module-level state is state, too): earlier
     # calls use other upsampling factors with the same buffers / shapes
     import json as _json
